@@ -179,4 +179,14 @@ def targets(tier='quick'):
     for ns in (1, 2):
         T.append(Target('cdwf/field-sequence[nsys=%d]' % ns, 'system_dynamics.compute_dynamics_with_field',
                         dynf.cdwf_scenario(ns), post_cdwf, R, PROP, max_paths=4000, replay=replay_field))
+    # MeanFieldTempo's own step: the system propagators are asked for the CURRENT step with the current field and derivative
+    # (the contract of the back end, shared with C14; discharged here too so that this check stands on its own)
+    from . import c14
+    for nsys in (1, 2):
+        t = Target('mf-backend/compute_step' + ('' if nsys == 1 else '[systems=%d]' % nsys), 'backends.tempo_backend.MeanFieldTempoBackend.compute_step',
+                   (lambda n: lambda ip, repo: c14.scen_mfb_step(ip, repo, n))(nsys), c14.post_mfb_step, c14.mfb_registry(), PROP,
+                   replay=lambda ob: {'func': 'field_free_reduces_to_tempo', 'inputs': {'obligation': ob['name']}})
+        # (exception atomicity of this step is C14's clause, with its open finding; here: which step/field the propagators get)
+        t.keep = lambda name: name.startswith(('mfb/uses-current-step', 'mfb/step-post', 'unexpected-exception'))
+        T.append(t)
     return T
